@@ -1,0 +1,45 @@
+"""
+
+Verification hooks (not part of pyanalyze's functionality).
+
+The hooks are inert unless the environment variable ``PYANALYZE_VERIF`` is
+set to ``1`` when pyanalyze is imported: every call site is guarded by
+:func:`is_enabled`. When enabled, events emitted at selected linearization
+points are appended, with a per-process sequence number, to an in-process sink
+installed with :func:`set_sink` or, if none is installed, as JSON lines to the
+file named by ``PYANALYZE_VERIF_TRACE``.
+
+"""
+
+import json
+import os
+from typing import Any, Optional
+
+from .find_unused import used
+
+_enabled: bool = os.environ.get("PYANALYZE_VERIF") == "1"
+_seq = 0
+_sink: Optional[list[dict[str, Any]]] = None
+
+
+def is_enabled() -> bool:
+    return _enabled
+
+
+@used  # called by the verification harness
+def set_sink(sink: Optional[list[dict[str, Any]]]) -> None:
+    global _sink
+    _sink = sink
+
+
+def emit(event: str, **fields: Any) -> None:
+    global _seq
+    _seq += 1
+    record = {"seq": _seq, "event": event, **fields}
+    if _sink is not None:
+        _sink.append(record)
+        return
+    path = os.environ.get("PYANALYZE_VERIF_TRACE")
+    if path:
+        with open(path, "a") as f:
+            f.write(json.dumps(record, default=repr) + "\n")
